@@ -63,13 +63,16 @@ def groups_def():
     return out
 
 
-def harness_build(dbg=True, extra_flags=(), tag="", kind="std"):
+def harness_build(dbg=True, extra_flags=(), tag="", kind="std", vectorize=False):
     """Compile the harness for the current /repo tree. -> (ok, exe_path_or_log)
     kind="jet": the dual-number harness (jmain.cpp + j_*.cpp against the ceres::Jet stand-in)"""
     if kind == "jet":
         tag = "_jet"
         extra_flags = list(extra_flags) + ["-I" + os.path.join(HARNESS, "shim")]
     flags = BASE_FLAGS + ([] if dbg else ["-DNDEBUG"]) + list(extra_flags)
+    if vectorize:       # Eigen's explicit vectorisation on (SSE2 packets, aligned loads where Eigen believes in alignment)
+        flags = [f for f in flags if f != "-DEIGEN_DONT_VECTORIZE"]
+        tag += "_vec"
     hsh = tree_hash(flags)
     d = os.path.join(CACHE, "h_" + hsh)
     exe = os.path.join(d, "harness" + tag)
